@@ -290,6 +290,23 @@ def one_dataset(obs, rng, conv, spec):
         obs.cls('dataset-with-degenerate-derived-cells-skipped')
         return
     ds = model.encode()
+    two_depths = False
+    if chance(rng, 0.3):
+        # a second depth coordinate on a dimension of its own, listed FIRST: the layer interfaces (one more value than the
+        # layer centres). The documented default depth coordinate of a dataset is the smallest one, i.e. the centres.
+        import xarray
+        d0 = model.depths[0]
+        vals = numpy.asarray(d0['values'], dtype=float)
+        step = float(vals[1] - vals[0]) if len(vals) > 1 else 1.0
+        inter = numpy.concatenate([[vals[0] - step / 2], (vals[1:] + vals[:-1]) / 2, [vals[-1] + (float(vals[-1] - vals[-2]) if len(vals) > 1 else 1.0) / 2]])
+        zi = xarray.DataArray(inter, dims=['n_interface'], attrs={'positive': d0['positive'], 'standard_name': 'depth', 'long_name': 'layer interfaces'})
+        ds2 = xarray.Dataset(coords={'z_interface': zi}).assign_coords({n: ds.coords[n].variable for n in ds.coords})
+        ds2 = ds2.assign({n: ds.data_vars[n].variable for n in ds.data_vars})
+        ds2.attrs = dict(ds.attrs)
+        if list(ds2.variables)[0] == 'z_interface' and ds2.drop_vars('z_interface').identical(ds):
+            ds = ds2
+            two_depths = True
+            obs.cls('dataset-with-layer-interfaces-listed-first')
     with quiet_warnings():
         ems = obs.call('dataset.ems', lambda: ds.ems)
         if isinstance(ems, Failed):
@@ -315,7 +332,7 @@ def one_dataset(obs, rng, conv, spec):
         'union': shapely.unary_union([polys[n] for n in live]),
         'depth': model.depths[0],
         'tvars': [n for n in model.variables if n.startswith('tr')],
-        'Transect': Transect,
+        'Transect': Transect, 'two_depths': two_depths,
     }
     lines = polylines(model, rng, int(rng.integers(3, 6))) + extra_polylines(model, rng, polys, int(rng.integers(5, 8)))
     from ..geomgen import robustly_simple
@@ -412,7 +429,19 @@ def one_transect(obs, rng, env, line, cls, spec):
 
     # ---------------- emsarray side ----------------------------------------------------------------------
     depth_arg = depth['name'] if chance(rng, 0.7) else ds[depth['name']]
-    transect = obs.call('Transect()', env['Transect'], ds, line, depth=depth_arg)
+    if chance(rng, 0.5 if env.get('two_depths') else 0.25):
+        # no depth argument: the convention's default depth coordinate (the smallest one)
+        obs.cls('transect-with-default-depth-coordinate')
+        with quiet_warnings():
+            transect = obs.call('Transect() without a depth argument', env['Transect'], ds, line)
+        if not isinstance(transect, Failed):
+            picked = obs.call('Transect.depth', lambda: transect.depth.name)
+            if not isinstance(picked, Failed):
+                obs.expect(picked == depth['name'], 'default depth coordinate of a transect is the (smallest) depth coordinate of the data',
+                           lambda: {'got': picked, 'want': depth['name'], 'two depth coordinates': env.get('two_depths')},
+                           mech='default-depth-coordinate')
+    else:
+        transect = obs.call('Transect()', env['Transect'], ds, line, depth=depth_arg)
     if isinstance(transect, Failed):
         return
     with quiet_warnings():
